@@ -6,6 +6,7 @@ import (
 	"context"
 	"fmt"
 	"sort"
+	"sync"
 	"testing"
 	"time"
 
@@ -13,7 +14,9 @@ import (
 
 	"github.com/jech/storrent/alloc"
 	"github.com/jech/storrent/config"
+	"github.com/jech/storrent/peer"
 	"github.com/jech/storrent/tor"
+	"github.com/jech/storrent/tor/piece"
 
 	"verif/ref"
 	"verif/sim"
@@ -214,6 +217,8 @@ func runGlobal(c gcase) (fail string, labels map[string]bool) {
 	ctx, cancel := context.WithCancel(context.Background())
 	defer cancel()
 	var xs []*sim.Tor
+	var watchers []*sim.Remote
+	var held []chan *peer.TorStats
 	for k := 0; k < c.ntor; k++ {
 		x, err := sim.Build(sim.Geometry{PieceSize: c.psK[k] * 1024, Length: c.psK[k] * 1024 * 8, Seed: uint64(100 + k)}, "")
 		if err != nil {
@@ -226,6 +231,14 @@ func runGlobal(c gcase) (fail string, labels map[string]bool) {
 			x.Fill(i)
 		}
 		xs = append(xs, x)
+		// a connected peer that understands lt_donthave: what it is told is what
+		// the torrent advertises
+		r, err := x.Connect(sim.Caps{Fast: k%2 == 0, Extended: true}, 1, false)
+		if err != nil {
+			return err.Error(), labels
+		}
+		r.SendExt(nil, nil, nil, "")
+		watchers = append(watchers, r)
 	}
 	sim.Settle()
 	usage := alloc.Bytes()
@@ -269,9 +282,35 @@ func runGlobal(c gcase) (fail string, labels map[string]bool) {
 			labels["global-expire-with-concurrent-kill"] = true
 		case "evict-all":
 			for _, x := range xs {
-				x.T.Pieces.Expire(0, nil, func(uint32) {})
+				x.T.Pieces.Expire(0, nil, func(i uint32) { x.T.Have(i, false) })
 			}
 		}
+	}
+	if c.action == "loop-busy" && len(xs) == 1 {
+		// the torrent's loop is busy and its queue is full when the eviction
+		// goroutine starts dropping pieces (tor.Expire has already asked the
+		// loop for the availability vector by then): the reports of dropped
+		// pieces have to wait, they must not be lost
+		var once sync.Once
+		piece.VerifYieldHook = func(point string, index int) {
+			if point != "Expire.beforeBytes" {
+				return
+			}
+			once.Do(func() {
+				x := xs[0]
+				ch := make(chan *peer.TorStats)
+				x.T.Event <- peer.TorGetStats{Ch: ch}
+				for len(x.T.Event) < cap(x.T.Event) {
+					select {
+					case x.T.Event <- peer.TorAnnounce{}:
+					default:
+					}
+				}
+				held = append(held, ch)
+				labels["global-expire-with-busy-loop"] = true
+			})
+		}
+		defer func() { piece.VerifYieldHook = nil }()
 	}
 	defer func() { tor.VerifYieldHook = nil }()
 	var ret int
@@ -285,8 +324,59 @@ func runGlobal(c gcase) (fail string, labels map[string]bool) {
 		return fmt.Sprintf("tor.Expire panicked: %v", pv) + describe(), labels
 	}
 	sim.Settle()
+	for _, ch := range held {
+		select {
+		case <-ch:
+		case <-time.After(time.Second):
+		}
+	}
+	sim.Settle()
 	time.Sleep(time.Second)
 	sim.Settle()
+	// what is advertised is what is there: every complete piece that was
+	// dropped has been reported to the peers
+	for k, x := range xs {
+		select {
+		case <-x.T.Done:
+			continue
+		default:
+		}
+		if watchers[k].Closed() {
+			continue
+		}
+		adv := map[int]bool{}
+		for _, m := range watchers[k].All() {
+			switch {
+			case m.Kind == ref.KBitfield:
+				adv = map[int]bool{}
+				for i := 0; i < x.N; i++ {
+					if i/8 < len(m.Data) && m.Data[i/8]&(0x80>>(i%8)) != 0 {
+						adv[i] = true
+					}
+				}
+			case m.Kind == ref.KHaveAll:
+				for i := 0; i < x.N; i++ {
+					adv[i] = true
+				}
+			case m.Kind == ref.KHaveNone:
+				adv = map[int]bool{}
+			case m.Kind == ref.KHave:
+				adv[int(m.Index)] = true
+			case m.Kind == ref.KExtended && m.X == ref.XDontHave:
+				delete(adv, int(m.Index))
+			}
+		}
+		for i := 0; i < x.N; i++ {
+			if adv[i] && !x.T.Pieces.Complete(uint32(i)) {
+				return fmt.Sprintf("torrent %d: piece %d was dropped, yet a connected peer (which understands lt_donthave) was last told that we have it", k, i) + describe(), labels
+			}
+			if adv[i] {
+				labels["piece-still-advertised-and-present"] = true
+			} else if i < c.sizes[k] {
+				labels["dropped-piece-retracted"] = true
+			}
+		}
+	}
 	low, high := config.MemoryLowMark(), config.MemoryHighMark()
 	mid := (low + high) / 2
 	want := -1
@@ -321,7 +411,10 @@ func runGlobal(c gcase) (fail string, labels map[string]bool) {
 func TestC03GlobalExpire(t *testing.T) {
 	rapid.Check(t, func(rt *rapid.T) {
 		c := gcase{ntor: rapid.IntRange(0, 4).Draw(rt, "torrents"), markSel: rapid.IntRange(0, 6).Draw(rt, "mark"),
-			action: rapid.SampledFrom([]string{"none", "none", "kill-one", "kill-all", "evict-all"}).Draw(rt, "action")}
+			action: rapid.SampledFrom([]string{"none", "none", "kill-one", "kill-all", "evict-all", "loop-busy", "loop-busy"}).Draw(rt, "action")}
+		if c.action == "loop-busy" {
+			c.ntor = 1
+		}
 		for k := 0; k < c.ntor; k++ {
 			c.sizes = append(c.sizes, rapid.IntRange(0, 8).Draw(rt, "filled"))
 			c.psK = append(c.psK, rapid.SampledFrom([]int64{16, 32, 128}).Draw(rt, "pieceKiB"))
